@@ -282,7 +282,21 @@ impl<'a> LaxSlicedPacket<'a> {
                     },
                     payload: vlan_slice.payload_slice(),
                 }),
-                LaxLinkExtSlice::Macsec(macsec_slice) => macsec_slice.ether_payload(),
+                LaxLinkExtSlice::Macsec(macsec_slice) => {
+                    let mut p = macsec_slice.ether_payload()?;
+                    // a length limit of an enclosing link extension (e.g. the
+                    // short length of an outer MACsec header) still applies
+                    if p.len_source == LenSource::Slice {
+                        for ext in &self.link_exts {
+                            if let Some(l) = ext.payload().as_ref() {
+                                if l.len_source != LenSource::Slice {
+                                    p.len_source = l.len_source;
+                                }
+                            }
+                        }
+                    }
+                    Some(p)
+                }
             }
         } else if let Some(link) = self.link.as_ref() {
             match link {
